@@ -146,7 +146,7 @@ def reference_solver(case, H, K):
     return dict(U=U, Ht=Ht)
 
 
-class _Timeout(Exception):
+class _Timeout(BaseException):
     pass
 
 
